@@ -14,7 +14,8 @@ LEVEL = 'exploration'
 RULE = ('random universes x {JsonDocument, YamlDocument, MessagePackDocument (str and bin keys), MessagePackRpc} x ignore_wrappers x '
         'complex_as {dict, list (fully populated objects)} x validator {None, soft}; values incl. 2^63/2^64/2^70 integers, 40-digit '
         'decimals, every Unicode scalar class; non-trivial = function entered with a non-null argument or non-null return decoded; '
-        'distinct by (configuration, argument/return shapes, value classes).')
+        'distinct by (configuration, argument/return shapes, value classes).'
+        ' Also: polymorphic=True where the wrappers are kept (subclass instances), integers either side of every wire width in both signs, classes that contain themselves, Double ranges, prefix-alternation patterns.')
 ASSUMPTIONS = [
     'reference codec vflib/refdict.py implements the documented conventions; decimals are sent as strings and accepted back as strings or numbers (numeric equality)',
     'complex_as=list is only used with fully populated objects (positional form)',
